@@ -655,18 +655,24 @@ def clock_instants(rng, n_random, n_midnights):
     return out
 
 
-# fractions whose binary-float addition cannot reach the neighbouring integer: |t| < 2^38 leaves 2^-15 of resolution,
-# so any fraction in [0.0001, 0.9999] (first four digits neither 0000 nor 9999) or exactly 0 is safe
-def safe_fraction(rng):
-    k = rng.randrange(6)
+# Python adds the fraction as a binary float (`timestamp += float("0" + fraction)`): fractions within 2^-15 of a whole
+# second can land on the neighbouring integer.  The model reproduces binary64 rounding, so every kind is generated.
+def any_fraction(rng):
+    k = rng.randrange(10)
     if k == 0:
         return '0' * rng.randrange(1, 12)
-    head = '%04d' % rng.randrange(1, 9999)
-    n = rng.choice([1, 2, 3, 4, 4, 6, 9, 12])
-    f = (head + ''.join(rng.choice('0123456789') for _ in range(8)))[:n]
-    if n < 4 and set(f) <= {'0'}:
-        f = f[:-1] + '5'
-    return f
+    if k == 1:                                                       # just above a whole second
+        return '0' * rng.randrange(3, 25) + rng.choice('123456789') + ''.join(rng.choice('0123456789') for _ in range(rng.randrange(0, 4)))
+    if k == 2:                                                       # just below the next second
+        return '9' * rng.randrange(3, 25) + ''.join(rng.choice('0123456789') for _ in range(rng.randrange(0, 4)))
+    if k == 3:                                                       # around one half (ties of `int`, not of the rounding)
+        return rng.choice(['5', '50', '4' + '9' * rng.randrange(1, 20), '5' + '0' * rng.randrange(1, 20) + '1'])
+    if k == 4:                                                       # very long: underflow of the tail, 400 digits
+        return ''.join(rng.choice('0123456789') for _ in range(rng.choice([40, 100, 400])))
+    if k == 5:
+        return '0' * rng.choice([320, 330, 400]) + '1'               # subnormal / underflow to 0.0
+    n = rng.choice([1, 2, 3, 4, 6, 9, 12, 17])
+    return ''.join(rng.choice('0123456789') for _ in range(n))
 
 
 def clock_spellings(rng, t, rich):
@@ -683,10 +689,10 @@ def clock_spellings(rng, t, rich):
             ('two-newlines', s + '\n\n'), ('leading-newline', '\n' + s), ('trailing-Z', s + 'Z'),
             ('year-5-digits', '0' + s), ('year-3-digits', s[1:]), ('year-0000', '0000' + s[4:]), ('signed-year', '+' + s[1:]),
             ('fraction-dot-only', body + '.Z'), ('fraction-comma', body + ',5Z')]
-    fr = safe_fraction(rng)
+    fr = any_fraction(rng)
     out += [('fraction', body + '.' + fr + 'Z'), ('fraction-newline', body + '.' + fr + 'Z\n')]
     sg, oh, om = rng.choice('+-'), rng.randrange(0, 24), rng.randrange(0, 60)
-    out += [('offset', body + '%s%02d:%02d' % (sg, oh, om)), ('offset-fraction', body + '.' + safe_fraction(rng) + '%s%02d:%02d' % (sg, oh, om)),
+    out += [('offset', body + '%s%02d:%02d' % (sg, oh, om)), ('offset-fraction', body + '.' + any_fraction(rng) + '%s%02d:%02d' % (sg, oh, om)),
             ('offset-zero', body + rng.choice(['+00:00', '-00:00'])), ('offset-23:59', body + rng.choice('+-') + '23:59'),
             ('offset-24:00', body + '+24:00'), ('offset-00:60', body + '-00:60'), ('offset-no-colon', body + '+0100'),
             ('offset-short', body + '+01'), ('offset-newline', body + '-05:30\n'), ('offset-then-Z', body + '+01:00Z')]
